@@ -3,6 +3,7 @@ package checks
 import (
 	"bytes"
 	"fmt"
+	"strings"
 	"time"
 
 	"verifharness/cat"
@@ -444,7 +445,7 @@ func c09SharedUnit(c *core.Ctx) {
 func init() {
 	core.Register(&core.Check{
 		ID:   "C09",
-		Rule: "for every catalogued indicator and base strategy x configuration: (i) every ordered pair and four triples of sequential Compute calls on ONE instance with inputs of lengths {0,w,w+2,2w+1} compared with fresh instances, receiver dump compared after every call; (ii) two concurrent Compute calls on one instance with different inputs explored by DPOR (all traces) with the happens-before race detector and a receiver-immutability invariant evaluated at every scheduling point, plus an auxiliary delay-bounded (d<=1) search that assumes no independence, cut at 400 executions per scenario (counted); (iii) Compute / rendered Report / Compute / Report on one strategy instance compared with fresh instances; (iv) one strategy object shared by two compounds running concurrently; states = call sequences + concurrent scenarios, non-trivial = concurrent scenarios",
+		Rule: "for every catalogued indicator, base strategy x configuration, every decorator and a quarter (thorough: all) of the compound wrappers: (i) every ordered pair and four triples of sequential Compute calls on ONE instance with inputs of lengths {0,w,w+2,2w+1} compared with fresh instances, receiver dump compared after every call; (ii) two concurrent Compute calls on one instance with different inputs explored by DPOR (all traces) with the happens-before race detector and a receiver-immutability invariant evaluated at every scheduling point, plus an auxiliary delay-bounded (d<=1) search that assumes no independence, cut at 400 executions per scenario (counted); (iii) Compute / rendered Report / Compute / Report on one strategy instance compared with fresh instances; (iv) one strategy object shared by two compounds running concurrently; states = call sequences + concurrent scenarios, non-trivial = concurrent scenarios",
 		Assume: []string{"race freedom is decided on instrumented accesses (fields through pointers, captured mutated variables, maps, slice elements) in every explored execution; a free-running -race pass is not part of this check",
 			"configurations: the quick period boxes of the catalogue"},
 		Units: func(tier string) []core.Unit {
@@ -469,6 +470,14 @@ func init() {
 					}
 					us = append(us, core.Unit{Key: e.Name + fmtCfg(cfg), Cost: 2 * (3 + e.Warm(cfg)), Run: func(c *core.Ctx) { c09StratUnit(c, e, cfg) }})
 				}
+			}
+			// decorators and compounds keep per-run state too (purchase price, stop level, standing actions)
+			for i, e := range wrapperEntries() {
+				e := e
+				if !th && !strings.HasPrefix(e.Name, "decorator.") && i%4 != 0 {
+					continue
+				}
+				us = append(us, core.Unit{Key: e.Name, Cost: 3 * (3 + e.Warm(nil)), Run: func(c *core.Ctx) { c09StratUnit(c, e, []float64{}) }})
 			}
 			us = append(us, core.Unit{Key: "shared-sub-instances", Cost: 50, Run: c09SharedUnit})
 			return us
